@@ -1,6 +1,7 @@
 package main
 
 import (
+	"fmt"
 	"go/types"
 	"strings"
 
@@ -181,5 +182,43 @@ func c22(r *Run) {
 		// descending heights
 		es := findEffects(hf, "call (internal/validitywindow.BlockRetriever).GetBlockByHeight(p0.retriever, *, phi(*))")
 		r.check(len(es) == 1 && strings.Contains(es[0].Str, "p2.BlockHeight") && strings.Contains(es[0].Str, " - 1)"), "C22.R3", "handler:descending-from-requested-height", w.rel(hf.Pos()), "", "the handler does not walk heights downward from the requested height")
+		// an answer above the network's message size limit cannot be delivered: the response is cut at a byte budget
+		// below that limit, after at least one block
+		limit := int64(2_044_723)
+		if p := w.Pkgs[H+"/consts"]; p != nil {
+			if c, ok := p.Types.Scope().Lookup("NetworkSizeLimit").(*types.Const); ok {
+				limit, _ = constantInt(c)
+			}
+		}
+		budget := false
+		for _, b := range hf.Blocks {
+			ifi, ok := b.Instrs[len(b.Instrs)-1].(*ssa.If)
+			if !ok {
+				continue
+			}
+			bo, ok := ifi.Cond.(*ssa.BinOp)
+			if !ok {
+				continue
+			}
+			for _, pr := range [][2]ssa.Value{{bo.X, bo.Y}, {bo.Y, bo.X}} {
+				c0, ok := pr[1].(*ssa.Const)
+				if !ok || c0.Value == nil {
+					continue
+				}
+				var v int64
+				if _, err := fmt.Sscan(c0.Value.ExactString(), &v); err != nil || v <= 0 || v > limit {
+					continue
+				}
+				if strings.Contains(term(pr[0]), "builtin.len((internal/validitywindow.HandlerBlock).GetBytes(") {
+					// the over-budget edge returns what was gathered
+					for s := 0; s < 2; s++ {
+						if _, isRet := b.Succs[s].Instrs[len(b.Succs[s].Instrs)-1].(*ssa.Return); isRet && hasMatch(condStrings(ctrlCondsEdge(b, s)), "0 < builtin.len(*") {
+							budget = true
+						}
+					}
+				}
+			}
+		}
+		r.check(budget, "C22.R3", "handler:response-below-message-size-limit", w.rel(hf.Pos()), "", "the handler packs blocks without a byte budget below the network message size limit: an honest answer can be undeliverable, the requester retries the same range forever and backfill never completes")
 	}
 }
